@@ -144,12 +144,12 @@ Section SerStrip.
 
   Lemma ser_node_strips : forall k cur, ws_only cur = true -> strips (ser_node C E o cur k) (canon E k).
   Proof.
-    destruct (cfg_parts C o HC) as (Hh & Ht & Hl & Hci & _).
+    destruct (cfg_parts C o HC) as (Hh & Ht & Hl & Hci & _ & _).
     induction k as [n v | n cs IH] using kv_ind'; intros cur Hc.
     - cbn [ser_node canon].
       pose proof (lexes_to_strips E HE n v _ _ _ Hl (tpl_conc C E o HO n v cur (t_leaf C) Hc)) as H.
       cbn [flat_map stok_text fld app] in H. exact H.
-    - cbn [ser_node canon].
+    - cbn [ser_node canon]. rewrite (root_like_never C o HC).
       pose proof (lexes_to_strips E HE n [] _ _ _ Hh (tpl_conc C E o HO n [] cur (t_head C) Hc)) as H1.
       pose proof (lexes_to_strips E HE n [] _ _ _ Ht (tpl_conc C E o HO n [] cur (t_tail C) Hc)) as H3.
       cbn [flat_map stok_text fld app] in H1, H3.
@@ -166,7 +166,7 @@ Section SerStrip.
 
   Theorem strip_serialise_doc d : strip_blanks (serialise_doc C E o d) = canon_doc E d.
   Proof.
-    destruct (cfg_parts C o HC) as (_ & _ & _ & _ & Hri).
+    destruct (cfg_parts C o HC) as (_ & _ & _ & _ & Hri & _).
     unfold serialise_doc, canon_doc, strip_blanks.
     set (ri := render E (mkenv C E o (o_start o)) [] [] (t_root_indent C)).
     assert (Hri' : ws_only ri = true) by (apply ws_tpl_render; [assumption.. | apply Hstart; assumption]).
